@@ -171,7 +171,7 @@ def rand_shape(rng, pdim, rational=None, maxdeg=None, maxextra=None, dim=None, k
     if normalize:
         lohi_ = (0.0, 1.0)
     else:
-        lohi_ = lohi if lohi is not None else rng.choice([(0.0, 1.0), (2.0, 5.0), (-3.0, 7.5), (10.0, 10.5), (-1.0, 1.0), (-2.0, 2.0)])
+        lohi_ = lohi if lohi is not None else rng.choice([(0.0, 1.0), (2.0, 5.0), (-3.0, 7.5), (10.0, 10.5), (-1.0, 1.0), (-2.0, 2.0), (-2.0, 0.0), (-0.5, 0.0)])
     mixed_ranges = (not normalize) and lohi is None and pdim > 1 and rng.random() < 0.4
     for p, n in zip(degs, sizes):
         c = kvcls
